@@ -215,7 +215,7 @@ theorem seqAfterUpdate_cust {s s' : St} {m : UpdMsg} {b : Bool} (h : Cust s) (e 
   · cases e
   · rename_i prop hg
     dsimp only at e
-    have h1 : Cust (setSeq s { prop with dishonor := prop.dishonor - min s.p.dishonorSU prop.dishonor }) :=
+    have h1 : Cust (setSeq s { prop with dishonor := prop.dishonor - min s.sqp.dishonorSU prop.dishonor }) :=
       Cust.setSeq_same (q0 := prop) (a := m.sender) h hg (show prop.addr = m.sender from getSeq_addr hg) rfl
     split at e
     · exact onProposerLastBlock_cust h1 e
